@@ -87,7 +87,10 @@ def rule_body(ctx, fl):
         ctx.ob('C14.3', 'no return before completion', ok,
                'every path to return passes the completed store or the state == completed edge of the wait loop', loc=r.loc)
     ys = call_sites(f, ('myth_yield', 'myth_yield_body', 'myth_yield_ex_body'))
-    for w in waits:
+    # the polling tests are the ones inside a loop (a first look at the state before deciding what to do is not a wait)
+    polls = [w for w in waits if lib.loop_containing(f, w) is not None]
+    ctx.ob('C14.3', 'waiters poll the state in a loop', len(polls) >= 1, 'while (state != completed) yield', loc=f.loc)
+    for w in polls:
         lp = lib.loop_containing(f, w)
         ctx.ob('C14.3', 'wait test is in a loop with a yield', lp is not None and any(y.block.id in lp['blocks'] for y in ys),
                'waiters yield the worker between polls (the init routine may need it to finish)', loc=w.loc)
